@@ -62,6 +62,9 @@ open_("C05", "D27", "C05/path-not-in-commit", [],
 open_("C13", "D28", "C13/lost@f.txt:2", ["C13/lost@f.txt:3"],
       "history: AI session inserts 2 lines after line 1 of f.txt; `git stash push`; a commit to g.txt; `git stash apply`; commit => in wrapper mode lines 2-3 are AI, with git-ai installed as git hooks (plain git) they are human (`stash pop` keeps them in both modes)",
       "c13.stash_apply_after_head_moved_in_hooks_mode", ["hooks_stash_apply"], affects=[])
+open_("C19", "D63", "C19/breakdown-ai_additions", ["C19/breakdown-mixed_additions"],
+      "history (recorded script witnesses/d63_c19_2_4.json, reduced by tools/ddmin.py): S1 writes five lines into a new file a.txt, S2 appends one, a person rewrites S1's first two lines (one of them keeps the `# ` prefix); `git commit --allow-empty` with nothing staged as the first commit. The commit adds no lines, its note still carries S1's prompt record with overriden_lines=1: the commit-level mixed_additions is capped at (added - accepted) = 0 while the per-tool figure is not, so tool_model_breakdown sums to mixed_additions=1 / ai_additions=1 against totals of 0. Identified by call site: a breakdown mismatch of mixed_additions / ai_additions on a commit whose prompt records' overridden-line counters exceed (added - accepted), i.e. where the cap is active",
+      "recorded:witnesses/d63_c19_2_4.json", ["stats_breakdown_under_cap"], affects=[])
 open_("C19", "D32", "C19/accepted", ["C19/ai_additions>added", "C19/human+accepted!=added"],
       "input: commit adds 1 AI line (f.txt:4, session S1); the note is rewritten so that a second session entry also lists line 4 (as merged or foreign notes can); `git-ai stats <sha> --json` => ai_accepted=2 and ai_additions=2 for git_diff_added_lines=1 (accepted_lines_from_attestations sums per entry without de-duplicating lines)",
       "c19.line_listed_by_two_sessions_counts_twice", ["overlap_injection"], affects=[])
